@@ -16,7 +16,11 @@ EXPLANATION = (
     "successful non-dry set_backend(name) the active backend is name; a dry run (has_backend) leaves the active "
     "backend untouched; _pending_backend / _pending_dry_run are restored on EVERY exit path including exceptional ones; "
     "an unavailable backend raises MissingBackendError, an unknown name a ValueError; a loader returning neither True "
-    "nor False is an internal error (excluded by the loaders' own contract)."
+    "nor False is an internal error (excluded by the loaders' own contract); set_backend('any'/'default') picks the first available "
+    "backend in declaration order and every loader consulted sees the caller's dry-run flag; a class that does not own the "
+    "backend state forwards name and dry-run flag unchanged to the owner; bcrypt's pure-python loader binds the routine its "
+    "checksum code calls; bcrypt's lazy-loading stub (_NoBackend._calc_checksum, with the run-time rebinding of the class bases "
+    "modelled) loads once and hands the caller's secret to the loaded backend exactly once, never re-entering a subclass wrapper."
 )
 ASSUMPTIONS = [
     "loaders return True / False or raise MissingBackendError / PasslibSecurityError (each _load_backend_* body ends in _finalize_backend_mixin or an import probe)",
